@@ -966,37 +966,46 @@ func (ck *Check) delegate(fn *ssa.Function) (*ssa.Function, *Ctx) {
 	if !ok || len(r.Results) == 0 {
 		return nil, nil
 	}
+	// the call whose results are returned as they are
 	var call *ssa.Call
-	for _, in := range fn.Blocks[0].Instrs {
-		c, ok := in.(*ssa.Call)
-		if !ok {
-			continue
-		}
-		if g := c.Common().StaticCallee(); g != nil && ck.P.inRepo(g) && g.Blocks != nil {
-			if call != nil {
-				return nil, nil
+	for i, rv := range r.Results {
+		var c *ssa.Call
+		switch x := rv.(type) {
+		case *ssa.Call:
+			if len(r.Results) == 1 {
+				c = x
 			}
-			call = c
+		case *ssa.Extract:
+			if x.Index == i {
+				c, _ = x.Tuple.(*ssa.Call)
+			}
 		}
+		if c == nil || (call != nil && c != call) {
+			return nil, nil
+		}
+		call = c
 	}
 	if call == nil {
 		return nil, nil
 	}
-	for i, rv := range r.Results {
-		switch x := rv.(type) {
-		case *ssa.Call:
-			if x != call || len(r.Results) != 1 {
-				return nil, nil
-			}
-		case *ssa.Extract:
-			if x.Tuple != ssa.Value(call) || x.Index != i {
-				return nil, nil
-			}
-		default:
+	g := call.Common().StaticCallee()
+	if g == nil || !ck.P.inRepo(g) || g.Blocks == nil {
+		return nil, nil
+	}
+	// anything else the wrapper calls only reads (it computes an argument: `c.dryMode(g)`)
+	for _, in := range fn.Blocks[0].Instrs {
+		c, ok := in.(*ssa.Call)
+		if !ok || c == call {
+			continue
+		}
+		if _, isB := c.Common().Value.(*ssa.Builtin); isB {
+			continue
+		}
+		h := c.Common().StaticCallee()
+		if h == nil || !(ck.P.inRepo(h) && h.Blocks != nil && ck.P.readOnly(h)) && !pureExternal(h) {
 			return nil, nil
 		}
 	}
-	g := call.Common().StaticCallee()
 	ctx := ck.P.NewCtx(fn)
 	args := make([]*Term, len(call.Common().Args))
 	for i, av := range call.Common().Args {
